@@ -15,9 +15,13 @@ build_cli() {
 build_inst() {
   (cd $V/mc && go run ./cmd/mkoverlay "$V/.cache/overlay" >/dev/null && go build -tags verif -overlay "$V/.cache/overlay/overlay.json" -o "$BIN/vcheck-inst" ./cmd/vcheck) || { echo "BUILD-FAILED: instrumented vcheck does not build against /repo" >&2; exit 3; }
 }
+build_race() {
+  (cd $V/mc && go build -race -o "$BIN/vcheck-race" ./cmd/vcheck) || { echo "BUILD-FAILED: -race vcheck does not build against /repo" >&2; exit 3; }
+}
 case "${1:-}" in
-  build) build; build_cli; build_inst ;;
-  C09|C15|C16) build_inst; exec "$BIN/vcheck-inst" run "$1" "${2:-quick}" ;;
+  build) build; build_cli; build_inst; build_race ;;
+  C16) build_inst; build_race; exec "$BIN/vcheck-inst" run "$1" "${2:-quick}" ;;
+  C09|C15) build_inst; exec "$BIN/vcheck-inst" run "$1" "${2:-quick}" ;;
   C20) build; build_cli; exec "$BIN/vcheck" run "$1" "${2:-quick}" ;;
   replay) case "$(basename "$2")" in C09-*|C15-*|C16-*) build_inst; exec "$BIN/vcheck-inst" replay "$2" ;; C20-*) build; build_cli; exec "$BIN/vcheck" replay "$2" ;; *) build; exec "$BIN/vcheck" replay "$2" ;; esac ;;
   *) build; exec "$BIN/vcheck" run "$1" "${2:-quick}" ;;
